@@ -170,9 +170,9 @@ int disasm_pic18(
         case OP_F_K12:
         {
           f = (opcode >> 4) & 0x3;
-          value = opcode & 0xf;
+          value = (opcode & 0xf) << 8;
           opcode = memory->read16(address + 2);
-          value |= (opcode & 0xff) << 4;
+          value |= opcode & 0xff;
 
           snprintf(instruction, length, "%s %d, 0x%02x",
             table_pic18[n].instr,
